@@ -40,7 +40,7 @@ def run_ipm_tool(tool, data, a, b, fi, fo, wd, tag):
         mci_ipm_encode.mci_ipm_encode(io.BytesIO(data), out_file=out, in_encoding=a, out_encoding=b, in_format=fi, out_format=fo)
         return out.getvalue()
     path = os.path.join(wd, 'conv-%d-%s.ipm' % (os.getpid(), tag))
-    open(path, 'wb').write(data)
+    drv.spit(path, data)
     try:
         if tool == 'mci_ipm_encode.cli':
             if fi == fo == 'vbs' and len(data) % 2:
@@ -50,7 +50,7 @@ def run_ipm_tool(tool, data, a, b, fi, fo, wd, tag):
             else:
                 quiet(mci_ipm_encode.cli_run, in_filename=path, out_filename=path + '.o', in_encoding=a, out_encoding=b,
                       in_format=fi, out_format=fo)
-            return open(path + '.o', 'rb').read()
+            return drv.slurp(path + '.o')
         # mideu convert: fixed pairs, same blocking in and out, writes <input>.out
         kw = {}
         if len(data) % 3 == 0:
@@ -70,7 +70,7 @@ def run_ipm_tool(tool, data, a, b, fi, fo, wd, tag):
                 os.unlink(path + '.json')
         if rc == -1:
             raise RuntimeError('mideu convert reported an error')
-        return open(path + '.out', 'rb').read()
+        return drv.slurp(path + '.out')
     finally:
         for p in (path, path + '.o', path + '.out'):
             if os.path.exists(p):
@@ -130,6 +130,11 @@ def _drive_ipm(args):
                 m0['DE2'] = '5' * (left - 2)
             msgs.insert(0, m0)
             n += 1
+        if cid % 5 == 3 and fi == 'vbs':
+            # an unblocked file whose bytes 1012-1013 and 2026-2027 are blanks of its code page (x40 x40 in EBCDIC):
+            # blank-padded text crossing the places where a blocked file would carry its trailers
+            msgs = [{'MTI': '1240', 'DE2': '5%015d' % i, 'PDS0165': 'M' + ' ' * 646 + 'x'} for i in range(4)]
+            n = 4
         src = ipmc.write_file(msgs, a, bc, fi == '1014')
         rc = reader_config(tool)
         res = {'cid': cid, 'tool': tool, 'a': a, 'b': b, 'fi': fi, 'fo': fo, 'viol': [],
@@ -208,7 +213,7 @@ def _drive_param(args):
                 mci_ipm_param_encode.mci_ipm_param_encode(io.BytesIO(data), o, in_encoding=x, out_encoding=y, in_format=f1, out_format=f2)
                 return o.getvalue()
             path = os.path.join(wd, 'pconv-%d-%s.bin' % (os.getpid(), tag))
-            open(path, 'wb').write(data)
+            drv.spit(path, data)
             try:
                 if tool == 'mci_ipm_param_encode.cli':
                     quiet(mci_ipm_param_encode.cli_run, in_filename=path, out_filename=path + '.o', in_encoding=x, out_encoding=y,
@@ -218,7 +223,7 @@ def _drive_param(args):
                                no1014blocking=(f1 == 'vbs'))
                     if rc == -1:
                         raise RuntimeError('paramconv reported an error')
-                return open(path + '.o', 'rb').read()
+                return drv.slurp(path + '.o')
             finally:
                 for p in (path, path + '.o'):
                     if os.path.exists(p):
